@@ -15,6 +15,13 @@ from .engine import (Ctx, Frame, Closure, LoopSpec, It, Unsupported, PathEnd, Re
                      ContinueSignal, RaiseSignal, MUTATORS, _src_ast)
 
 
+class SymRepeat:
+    """unit * count for a concrete bytes / str unit and a symbolic count (count <= 0 gives the empty string, as in Python)"""
+
+    def __init__(self, unit, count):
+        self.unit, self.count = unit, count
+
+
 class SuperProxy:
     def __init__(self, obj, after):
         self.obj, self.after = obj, after
@@ -214,6 +221,8 @@ class Interp:
         if isinstance(op, ast.Sub):
             return a - b
         if isinstance(op, ast.Mult):
+            if isinstance(a, (bytes, str)) and is_z3(b):
+                return SymRepeat(a, b)     # b"\x00" * n with symbolic n: only a callee contract can consume it
             return a * b
         if isinstance(op, ast.FloorDiv):
             if not (isinstance(b, int) and b > 0):
